@@ -46,6 +46,17 @@
 //! schema table, insert_batch_into_schema = the body of insert_batch); then generated batches of the
 //! sizes {0,1,2,63,64,65,700[,5000]} in sequential / reverse / duplicate-bearing order (keys 1001..).
 //!
+//! Long runs.  ONE prepared `INSERT INTO t VALUES (?, ?)` is executed n times with increasing keys (the only
+//! key order the cached path handles at all, see KF-C43-09) on a PRIMARY KEY / UNIQUE table, key shapes INT,
+//! BIGINT, 200-byte TEXT, 60-byte TEXT (wide keys: an index leaf holds a few dozen entries, so the index
+//! root splits and the new right-most leaf fills again and again within a few hundred executions); twin B
+//! gets one INSERT statement per row.  Compared: class of every execution, COUNT(*), scan count, SELECT *,
+//! `WHERE k = <key>` for EVERY key (plus one absent key below and above), duplicate-key probes through the
+//! statement and through INSERT for old and recent keys.  Quick: TEXT200 x 400 and INT x 2000 through
+//! prepared-execute; thorough: {prepared-execute, insert_cached} x {pk, unique} x 4 shapes at 3000 / 3000 /
+//! 600 / 1500 executions.  Signature C43/long-run/<api>/<kind>/<shape>:seq-size>=N/<layer>, N = the smallest
+//! length of the shape's ladder that still fails.
+//!
 //! Signature = C43/<api>/<table kind>/<placement>:<batch class>[@<step>]/<layer> of the MINIMAL case
 //! (placement fresh|after-dml|after-reopen|after-reopen-rows; class = first of empty, null-key,
 //! dup-in-batch, dup-with-existing, null-value, plain, or <order>-size>=N); the minimal case is found
@@ -1398,7 +1409,7 @@ impl Check for C43 {
         let mut s = Spec::new(
             "C43",
             "model_checking",
-            "a case is (API, table kind, placement, batch): twin databases run the same history (setup, optional ordinary INSERTs and/or reopen, the batch, INSERT / UPDATE / DELETE of loaded keys, a second batch, a following INSERT of every key, an AUTO_INCREMENT probe), twin A loading the batches through insert_batch / insert_batch_into_schema / prepared execute (insert_cached inside) / insert_cached with a warmed plan / bulk_insert, twin B through one INSERT per row; the twins are compared after every step (Ok/Err class, SELECT * bag, COUNT(*), key lookups through the primary key / index / scan). Batches: EVERY sequence of <= L rows over a 5-letter row alphabet (duplicate keys, duplicate with existing rows, NULL key, NULL value) and generated batches of sizes 0,1,2,63,64,65,700(,5000) in sequential / reverse / duplicate-bearing order; 8 table kinds (plain, INT / BIGINT primary key, UNIQUE, secondary index, NOT NULL, AUTO_INCREMENT, table in a user schema) x 4 placements. Distinct = distinct case; non-trivial = a non-empty batch.",
+            "a case is (API, table kind, placement, batch): twin databases run the same history (setup, optional ordinary INSERTs and/or reopen, the batch, INSERT / UPDATE / DELETE of loaded keys, a second batch, a following INSERT of every key, an AUTO_INCREMENT probe), twin A loading the batches through insert_batch / insert_batch_into_schema / prepared execute (insert_cached inside) / insert_cached with a warmed plan / bulk_insert, twin B through one INSERT per row; the twins are compared after every step (Ok/Err class, SELECT * bag, COUNT(*), key lookups through the primary key / index / scan). Batches: EVERY sequence of <= L rows over a 5-letter row alphabet (duplicate keys, duplicate with existing rows, NULL key, NULL value) and generated batches of sizes 0,1,2,63,64,65,700(,5000) in sequential / reverse / duplicate-bearing order; 8 table kinds (plain, INT / BIGINT primary key, UNIQUE, secondary index, NOT NULL, AUTO_INCREMENT, table in a user schema) x 4 placements. Long runs: one prepared INSERT executed 400 (200-byte TEXT keys) / 2000 (INT keys) times with increasing keys on a PRIMARY KEY table (thorough: prepared-execute and insert_cached x PRIMARY KEY / UNIQUE x INT, BIGINT, 200-byte and 60-byte TEXT keys at 3000/3000/600/1500 executions), so that index root and leaf splits happen while the plan stays cached; every key is then looked up through the index on both twins, scan counts and duplicate-key rejection are compared. Distinct = distinct case; non-trivial = a non-empty batch.",
         );
         s.assumptions = &[
             "reference = the row-at-a-time INSERT twin (its own defects, e.g. the row-id counter restarting on open, show up as differences and are listed as findings with that root cause)",
